@@ -58,6 +58,16 @@ func hostileMode(args []string) {
 		tr  *vapp.Transcript
 	}
 	results := make([]res, c.n)
+	type job struct {
+		si   int
+		pk   pick
+		rec  vapp.TxRecord
+		hc   vapp.HostileCase
+		ci   int
+		slot int
+	}
+	var jobs []job
+	var gens []*vapp.Genesis
 	parallel(c.n, c.workers, func(i int) {
 		var sc *vapp.Scenario
 		if given != nil {
@@ -67,66 +77,82 @@ func hostileMode(args []string) {
 		}
 		r := &results[i]
 		r.sc = sc
-		ref, err := vapp.Materialise(sc, vapp.RunOpts{Identity: "v1"})
-		if err != nil {
-			r.err = err
-			return
+		r.tr, r.err = vapp.Materialise(sc, vapp.RunOpts{Identity: "v1"})
+	})
+	for i := range results {
+		r := &results[i]
+		if r.err != nil {
+			break
 		}
-		r.tr = ref
-		g := vapp.BuildGenesis(sc.Genesis)
+		g := vapp.BuildGenesis(r.sc.Genesis)
+		gens = append(gens, g)
 		rng := rand.New(rand.NewSource(c.seed*41 + int64(i)))
-		for _, pk := range pickTxs(ref, rng, c.maxTx) {
-			rec := ref.Blocks[pk.bi].Txs[pk.ri]
+		for _, pk := range pickTxs(r.tr, rng, c.maxTx) {
+			rec := r.tr.Blocks[pk.bi].Txs[pk.ri]
 			cases := g.HostileCases(rec.B)
 			cases = append(cases, vapp.ByteCases(rec.B.Bytes, rng, 12)...)
 			for ci, hc := range cases {
-				ev := HostileEvent{T: i + 1, H: int64(pk.bi + 1), Kind: hc.Kind, Field: hc.Field, Class: hc.Class, Deliver: -9, ProbeCheck: -9, ProbeDeliver: -9, Len: len(hc.Bytes)}
-				p, dir, err := prefixProc(sc, ref, pk.bi)
-				if err != nil {
-					r.err = err
-					return
-				}
-				func() {
-					defer func() { p.Stop(); os.RemoveAll(dir) }()
-					cr := p.Call(&vapp.Cmd{Op: "check", Tx: hc.Bytes})
-					if !cr.Alive {
-						ev.Check, ev.Exit = code(cr, p), p.Exit
-						return
-					}
-					ev.Check = int64(cr.Tx.Code)
-					br := p.Call(&vapp.Cmd{Op: "run_block", Block: blockWith(ref, pk.bi, rec.Index, hc.Bytes)})
-					if !br.Alive {
-						ev.Deliver, ev.Exit = code(br, p), p.Exit
-						return
-					}
-					ev.Deliver = int64(br.Txs[rec.Index].Code)
-					// probe: a fixed valid transfer must still be accepted and executed
-					probe := g.Build(vapp.TxReq{Kind: "SEND", A: vapp.A{"from": "a3", "to": "a1", "amt": 1}, Memo: fmt.Sprintf("probe-%d-%d", i, ci)})
-					pc := p.Call(&vapp.Cmd{Op: "check", Tx: probe.Bytes})
-					if !pc.Alive {
-						ev.ProbeCheck, ev.Exit = code(pc, p), p.Exit
-						return
-					}
-					ev.ProbeCheck = int64(pc.Tx.Code)
-					nb := *blockWith(ref, pk.bi, rec.Index, nil)
-					nb.Height++
-					nb.Txs = [][]byte{probe.Bytes}
-					nb.Time = nb.Time.Add(10)
-					nb.Votes = ref.Concrete[pk.bi].Votes
-					if pk.bi+1 < len(ref.Concrete) {
-						nb.Votes = ref.Concrete[pk.bi+1].Votes
-					}
-					pb := p.Call(&vapp.Cmd{Op: "run_block", Block: &nb})
-					if !pb.Alive {
-						ev.ProbeDeliver, ev.Exit = code(pb, p), p.Exit
-						return
-					}
-					ev.ProbeDeliver = int64(pb.Txs[0].Code)
-				}()
-				r.evs = append(r.evs, ev)
+				jobs = append(jobs, job{si: i, pk: pk, rec: rec, hc: hc, ci: ci, slot: len(jobs)})
 			}
 		}
+	}
+	evsAll := make([]HostileEvent, len(jobs))
+	errsAll := make([]error, len(jobs))
+	parallel(len(jobs), c.workers, func(k int) {
+		jb := jobs[k]
+		i, pk, rec, hc, ci := jb.si, jb.pk, jb.rec, jb.hc, jb.ci
+		sc, ref, g := results[i].sc, results[i].tr, gens[i]
+		ev := HostileEvent{T: i + 1, H: int64(pk.bi + 1), Kind: hc.Kind, Field: hc.Field, Class: hc.Class, Deliver: -9, ProbeCheck: -9, ProbeDeliver: -9, Len: len(hc.Bytes)}
+		p, dir, err := prefixProc(sc, ref, pk.bi)
+		if err != nil {
+			errsAll[k] = err
+			return
+		}
+		func() {
+			defer func() { p.Stop(); os.RemoveAll(dir) }()
+			cr := p.Call(&vapp.Cmd{Op: "check", Tx: hc.Bytes})
+			if !cr.Alive {
+				ev.Check, ev.Exit = code(cr, p), p.Exit
+				return
+			}
+			ev.Check = int64(cr.Tx.Code)
+			br := p.Call(&vapp.Cmd{Op: "run_block", Block: blockWith(ref, pk.bi, rec.Index, hc.Bytes)})
+			if !br.Alive {
+				ev.Deliver, ev.Exit = code(br, p), p.Exit
+				return
+			}
+			ev.Deliver = int64(br.Txs[rec.Index].Code)
+			probe := g.Build(vapp.TxReq{Kind: "SEND", A: vapp.A{"from": "a3", "to": "a1", "amt": 1}, Memo: fmt.Sprintf("probe-%d-%d-%d", i, pk.bi, ci)})
+			pc := p.Call(&vapp.Cmd{Op: "check", Tx: probe.Bytes})
+			if !pc.Alive {
+				ev.ProbeCheck, ev.Exit = code(pc, p), p.Exit
+				return
+			}
+			ev.ProbeCheck = int64(pc.Tx.Code)
+			nb := *blockWith(ref, pk.bi, rec.Index, nil)
+			nb.Height++
+			nb.Txs = [][]byte{probe.Bytes}
+			nb.Time = nb.Time.Add(10)
+			nb.Votes = ref.Concrete[pk.bi].Votes
+			if pk.bi+1 < len(ref.Concrete) {
+				nb.Votes = ref.Concrete[pk.bi+1].Votes
+			}
+			pb := p.Call(&vapp.Cmd{Op: "run_block", Block: &nb})
+			if !pb.Alive {
+				ev.ProbeDeliver, ev.Exit = code(pb, p), p.Exit
+				return
+			}
+			ev.ProbeDeliver = int64(pb.Txs[0].Code)
+		}()
+		evsAll[k] = ev
 	})
+	for k, jb := range jobs {
+		if errsAll[k] != nil {
+			results[jb.si].err = errsAll[k]
+			continue
+		}
+		results[jb.si].evs = append(results[jb.si].evs, evsAll[k])
+	}
 	f, _ := os.Create(c.out)
 	w := bufio.NewWriter(f)
 	enc := json.NewEncoder(w)
